@@ -354,3 +354,53 @@ Proof.
   apply class_limits_ranges. rewrite forallb_forall in H. apply H.
   unfold nth_class in Hc. eapply nth_error_In; eassumption.
 Qed.
+
+(* ------------------------------------------------ header order as a permutation *)
+Lemma index_of_nth x l : In x l -> exists j, index_of x l = Some j /\ nth j l O = x /\ (j < length l)%nat.
+Proof.
+  induction l as [|y l IH]; intros Hin; [destruct Hin|].
+  cbn [index_of]. destruct (Nat.eqb x y) eqn:E.
+  - apply Nat.eqb_eq in E. subst. exists O. cbn. repeat split; lia.
+  - destruct Hin as [->|Hin]; [rewrite Nat.eqb_refl in E; discriminate|].
+    destruct (IH Hin) as (j & -> & Hn & Hl). exists (S j). cbn. repeat split; [assumption|lia].
+Qed.
+
+Lemma class_limits_params_lt c : class_limits c = true -> forall i, In i (c_params c) -> (i < length (c_locals c))%nat.
+Proof.
+  unfold class_limits. intros H. apply andb_true_iff in H. destruct H as [H _].
+  apply andb_true_iff in H. destruct H as [_ H]. rewrite forallb_forall in H.
+  intros i Hi. apply Nat.ltb_lt. apply H. assumption.
+Qed.
+
+(* whatever permutation of the definition order the header is: rearranging the definition-order values
+   gives the header-order parameters of the instance *)
+Theorem to_header_order_params c : class_limits c = true ->
+  forall e, to_header_order c (params_in_local_order c e) = params_of c e.
+Proof.
+  intros Hl e. unfold to_header_order, params_of, params_in_local_order. apply map_ext_in. intros i Hi.
+  assert (Hin : In i (param_positions c)).
+  { unfold param_positions. apply filter_In. split.
+    - apply in_seq. pose proof (class_limits_params_lt c Hl i Hi). lia.
+    - unfold is_param. apply existsb_exists. exists i. split; [assumption|apply Nat.eqb_refl]. }
+  destruct (index_of_nth i _ Hin) as (j & -> & Hn & Hj).
+  fold (param_positions c).
+  rewrite (nth_indep _ 0 (nth O e 0)) by (rewrite map_length; assumption).
+  rewrite (map_nth (fun i => nth i e 0) (param_positions c) O j). rewrite Hn. reflexivity.
+Qed.
+
+Theorem key_print_header_view G c : class_limits c = true -> params_are_ranges c ->
+  range_product G c <= two64 ->
+  forall e, In e (instances_of G c) ->
+    to_header_order c (key_print G c (make_key G c e)) = params_of c e.
+Proof.
+  intros Hl Hpr Hov e He.
+  rewrite (key_print_names_instance G c (class_limits_ranges c Hl) Hpr Hov e He).
+  apply to_header_order_params. assumption.
+Qed.
+
+Lemma wf_class_limits P ci c : wf_program P = true -> nth_class P ci = Some c -> class_limits c = true.
+Proof.
+  unfold wf_program. intros H Hc.
+  repeat (apply andb_true_iff in H; destruct H as [H ?]).
+  rewrite forallb_forall in H. apply H. unfold nth_class in Hc. eapply nth_error_In; eassumption.
+Qed.
